@@ -343,6 +343,8 @@ def run(F, R, tier):
         org = Bw.origins(contracts.RET)
         okw = bool(org) and all(o[0] == "call" and (q.ends(o[1], "mpsc::Sender::send") or (q.ends(o[1], "oneshot::channel") and tuple(o[3]) == ("1",)))
                                 for o in org)
+        contracts.reliable_round_trip(F, R, "C01.R7", "azure_proxy_agent::shared_state::key_keeper_wrapper::KeyKeeperSharedState::" + nm,
+                                      "KeyKeeperSharedState::" + nm)
         R.check(okw, "C01.R7", "C01.R7:%s:channel-failure-is-an-error" % gfn["id"], "%s:%s" % (gfn["file"], gfn["line"]),
                 "%s returns the send error or what the oneshot receiver yields - no default in place of a failed round trip" % nm,
                 "%s result origins: %s" % (nm, sorted(map(str, org))))
